@@ -14,7 +14,7 @@ func init() {
 		Rule: "twin execution of a generated program with and without its interposed close/reopen items (plus a determinism control); compared: " +
 			"success/failure and error kind of every step, every byte read, capacity probes (number of allocatable pages), user-visible allocator state; " +
 			"within one run the complete internal state before Close must equal the state after Open; shapes force free lists / overwrite mappings " +
-			"spanning several metadata pages, regions >= 255 pages and remaps; non-trivial = a reopen happened while the free list or the mapping spanned " +
+			"spanning several metadata pages, regions >= 255 pages (also initial meta areas of 254-257 pages), remaps, full files with metadata in the overflow area that is released again; non-trivial = a reopen happened while the free list or the mapping spanned " +
 			">= 2 metadata pages, or a free region had >= 255 pages, or the file had been remapped; distinct = distinct program hash",
 		Assume: []string{
 			"page ids handed out after a reopen are not required to equal those of the never-closed instance (only outcomes are compared)",
